@@ -44,11 +44,15 @@ def proof_step(prop, theorems, module, thorough=False, pre=None):
             res["failed"] = ["<generation> " + msg]
             return res
     os.makedirs(os.path.join(LEAN, ".lake"), exist_ok=True)
-    rc, out = sh(["flock", os.path.join(LEAN, ".lake", "verif-build.lock"), "lake", "build", "drv", module])
+    lock = ["flock", os.path.join(LEAN, ".lake", "verif-build.lock")]
+    rc, out = sh(lock + ["lake", "build", module])
     if rc != 0:
         res["log"] = out[-4000:]
         res["failed"] = ["<build> " + module]
         return res
+    rc, out = sh(lock + ["lake", "build", "drv"])
+    if rc != 0:      # the shared driver does not build: infrastructure, not a verdict about this property
+        raise RuntimeError("driver build failed:\n" + out[-3000:])
     bad = []
     for f in lean_sources():
         for ln, line in enumerate(strip_comments(open(f).read()).splitlines(), 1):
